@@ -637,7 +637,8 @@ class NetworkTopologyStrategy(ReplicationStrategy):
                         continue
 
                     if host.rack in racks_placed and len(racks_placed) < len(racks_this_dc):
-                        skipped_hosts.append(host)
+                        if host not in skipped_hosts:
+                            skipped_hosts.append(host)
                         continue
 
                     replicas.append(host)
